@@ -182,7 +182,7 @@ def gen_cases(ctx):
         pool = list(range(1, L + 1)) + ([far] if far else [])
         pred = np.array([rng.choice([0] + pool) for _ in range(n)], dtype=dt).reshape(shape)
         ref = np.array([rng.choice([0, 0, 1, 2, 3]) for _ in range(n)], dtype=dt).reshape(shape)
-        pi = rng.sample(range(1, L + 20), rng.randint(20, 60))
+        pi = rng.sample(range(1, L + 20), rng.randint(20, min(60, L + 19)))
         if far and rng.random() < 0.7:
             pi.append(far)
         rng.shuffle(pi)
